@@ -4,6 +4,7 @@ import (
 	"errors"
 	"fmt"
 	"math"
+	"strings"
 
 	"github.com/freeconf/yang/val"
 )
@@ -288,7 +289,7 @@ func (c *compiler) compileType(y *Type, parent Leafable, isUnion bool) error {
 			return fmt.Errorf("%s - %s path is required", SchemaPath(parent), y.ident)
 		}
 		// parent is a leaf, so start with parent's parent which is a container-ish
-		resolvedMeta := Find(parent, y.path)
+		resolvedMeta := Find(parent, leafrefSchemaPath(y.path))
 		if resolvedMeta == nil {
 			return fmt.Errorf("%s - %s path cannot be resolved", SchemaPath(parent), y.ident)
 		} else if target, hasType := resolvedMeta.(HasType); !hasType {
@@ -505,4 +506,25 @@ func typeLimits(f val.Format, fractionDigits int) (lo RangeNumber, hi RangeNumbe
 		return RangeNumber{str: "min", float: &l}, RangeNumber{str: "max", float: &h}, true
 	}
 	return
+}
+
+// leafrefSchemaPath is the path of a leafref without its predicates, they select among
+// the instances of a list and have no bearing on which leaf of the schema is meant
+func leafrefSchemaPath(path string) string {
+	if !strings.ContainsRune(path, '[') {
+		return path
+	}
+	var schemaPath strings.Builder
+	depth := 0
+	for _, r := range path {
+		switch {
+		case r == '[':
+			depth++
+		case r == ']':
+			depth--
+		case depth == 0:
+			schemaPath.WriteRune(r)
+		}
+	}
+	return schemaPath.String()
 }
